@@ -65,6 +65,21 @@ CLAIMED["C01"] = dict(
        "pkg/client + pkg/database Verifiable* conversions and signatures, malformed-history adversary with proof solving for dual proofs, DualProofV2.",
   technique="symbolic TLA+ model of the proof system, exhaustive TLC case enumeration, replay of every case on real proof generation and verification")
 
+CLAIMED["C05"] = dict(
+  category="model_checking",
+  text="spec/MVCC.tla models read-write transactions over two indexes (index time, reusable flushed root, lazily taken per-index snapshots as tbtree hands them out, own-write "
+       "overlay, read-set of point reads and full index scans, transcription of checkPreconditions incl. the per-snapshot loop). TLC checks Serializable exhaustively for one "
+       "read-write tx against write-only committers, a lagging indexer and root flushes (quick: 2 commits/2 reads ~1.4M states; thorough: 3 commits ~18M states), and finds the "
+       "counterexample of the early-return variant of the snapshot loop (the defect repaired by a fix: commit), which is kept as a schedule. Schedules (that counterexample + "
+       "500/3000 simulated behaviours with two read-write txs) are executed deterministically on the real store in multi-indexing mode (staleness steered through per-index "
+       "snapshots that dump the root; tx options with and without SnapshotMustIncludeTxID=0), and free concurrent read-write/write-only transactions run as well; every real read, "
+       "write set and commit id is validated by TLC against spec/TraceMVCC.tla: each read of a committed tx must equal the same read on the state produced by all txs with "
+       "smaller ids. Predicted values only produce model-drift notes.",
+  design_ref="DESIGN.md §4 C05",
+  note="Reads covered: Get (found / not found / own write) and full index scans through OngoingTx key readers; not yet GetWithPrefix, ranges with seek/end/offset/Reset, "
+       "MarkPrefixScanned, filters, deletes. Schedules are sequential interleavings of steps of <= 2 read-write txs; true parallelism only in the free-running runs.",
+  technique="TLC exhaustive model checking + deterministic replay of TLC schedules + TLC trace validation of real reads/commits")
+
 REASONS = {}
 
 
